@@ -864,6 +864,8 @@ def pred_replay(case, stats):
         raise
     classes, nontrivial = classify(case, m, tr)
     stats.case(case, nontrivial=nontrivial, classes=classes)
+    for what in case.get('excluded', ()):
+        stats.exclude(what)
     for clause, sig, observed, expected in analyse(case, m, tr):
         stats.fail(clause, sig, case, observed=observed, expected=expected)
 
@@ -942,8 +944,10 @@ def replay_cases(draw):
         h0 = draw(st.sampled_from(times))
     else:
         h0 = draw(st.sampled_from(times)) + draw(st.sampled_from([500, 2, 3, 1500]))
+    excluded = []
     while any(abs(f - h0) == 1 for f in firsts):
         h0 += 1
+        excluded.append('first load exactly 1 ms from a first-of-file record (moved by 1 ms)')
     factor = draw(st.sampled_from([1, 3, 0.25, 100]))
     settings = {'factor': factor, 'lookahead_ms': draw(st.sampled_from([None, None, 500, 5000, 0])),
                 'basis': draw(st.sampled_from(['explicit', 'explicit', 'clock']))}
@@ -955,6 +959,8 @@ def replay_cases(draw):
         hist = h0 - ((-settings.get('boff', 0)) if settings['basis'] == 'explicit' else settings['lead']) * factor * 1000
         if dl > hist and not any(abs(x - dl) == 1 for x in times):
             settings['deadline'] = dl
+        else:
+            excluded.append('duration deadline not after the start, or exactly 1 ms from a record (dropped)')
     if draw(st.integers(0, 5)) == 0:
         settings['defaults'] = draw(values_maps())
     nsteps = draw(st.integers(0, 10))
@@ -972,9 +978,12 @@ def replay_cases(draw):
         if draw(st.integers(0, 9)) == 0:
             step['upcoming'] = draw(st.integers(0, 40))
         schedule.append(step)
-    return {'base_s': draw(st.sampled_from(BASES)), 'files': files,
+    case = {'base_s': draw(st.sampled_from(BASES)), 'files': files,
             'numbering': draw(st.sampled_from(['zero', 'one'])), 'serial': draw(st.booleans()),
             'settings': settings, 'h0': h0, 'schedule': schedule}
+    if excluded:
+        case['excluded'] = excluded
+    return case
 
 
 # ---- enumerated universes (deterministic; no seed)
